@@ -573,6 +573,62 @@ let subj_explore () =
      done
    with End_of_file -> ())
 
+
+(* ---- C11: combinators fed from several threads ---- *)
+let comb_explore () =
+  (try
+     while true do
+       let line = input_line stdin in
+       if String.length line > 0 && line.[0] = '(' then begin
+         match parse_sx line with
+         | [L [A "comb"; A kind; L (A "scripts" :: ss)]] ->
+             let scripts = List.map (function L (A "s" :: vs) -> List.map atom_nat vs | x -> failwith ("bad script " ^ sx_to_string x)) ss in
+             let n = List.length scripts in
+             let arr = Array.of_list scripts in
+             let sf = (fun p -> let i = int_of_nat p in if i < n then arr.(i) else []) in
+             let ids = List.init n nat_of_int in
+             let str l = String.concat " " l in
+             let logs =
+               if kind = "merge" then begin
+                 let norm (c : mgcfg) = let tab = Array.init n (fun i -> c.m_in (nat_of_int i)) in
+                   { c with m_in = (fun p -> let i = int_of_nat p in if i < n then tab.(i) else { mi_script = []; mi_k = nat_of_int 0; mi_st = MNotYet }) } in
+                 let key (c : mgcfg) = Marshal.to_string (c.m_reg, c.m_open, c.m_log, List.map (fun i -> c.m_in i) ids) [] in
+                 let acts = List.concat (List.map (fun i -> [MItem i; MEnd i; MFin i]) ids) in
+                 let succ c = let k = key c in List.filter (fun c' -> key c' <> k) (List.map (fun a -> norm (mgstep c a)) acts) in
+                 let (finals, complete) = explore key succ (norm (mginit (nat_of_int n) sf)) 2000000 in
+                 if not complete then failwith "comb-explore: state limit";
+                 List.map (fun (c : mgcfg) -> str (List.map (function MI (_, v) -> string_of_int (int_of_nat v) | MC -> "c") c.m_log)) finals
+               end else if kind = "zip" then begin
+                 let norm (c : zcfg) =
+                   let q = Array.init n (fun i -> c.z_q (nat_of_int i)) and k = Array.init n (fun i -> c.z_k (nat_of_int i)) and pc = Array.init n (fun i -> c.z_pc (nat_of_int i)) in
+                   { c with z_q = (fun p -> let i = int_of_nat p in if i < n then q.(i) else []);
+                            z_k = (fun p -> let i = int_of_nat p in if i < n then k.(i) else nat_of_int 0);
+                            z_pc = (fun p -> let i = int_of_nat p in if i < n then pc.(i) else ZIdle); z_script = sf } in
+                 let key (c : zcfg) = Marshal.to_string (List.map (fun i -> (c.z_q i, c.z_k i, c.z_pc i)) ids, c.z_p, c.z_log) [] in
+                 let acts = List.concat (List.map (fun i -> [ZPush i; ZGet i; ZDeliver i]) ids) in
+                 let succ c = let k = key c in List.filter (fun c' -> key c' <> k) (List.map (fun a -> norm (zstep c a)) acts) in
+                 let (finals, complete) = explore key succ (norm (zinit (nat_of_int n) sf)) 2000000 in
+                 if not complete then failwith "comb-explore: state limit";
+                 List.map (fun (c : zcfg) -> str (List.map (fun (_, t) -> "(" ^ str (List.map (fun v -> string_of_int (int_of_nat v)) t) ^ ")") c.z_log)) finals
+               end else begin
+                 let norm (c : acfg) =
+                   let k = Array.init n (fun i -> c.a_k (nat_of_int i)) and pc = Array.init n (fun i -> c.a_pc (nat_of_int i)) in
+                   { c with a_k = (fun p -> let i = int_of_nat p in if i < n then k.(i) else nat_of_int 0);
+                            a_pc = (fun p -> let i = int_of_nat p in if i < n then pc.(i) else AIdle); a_script = sf } in
+                 let key (c : acfg) = Marshal.to_string (c.a_win, List.map (fun i -> (c.a_k i, c.a_pc i)) ids, c.a_log) [] in
+                 let acts = List.concat (List.map (fun i -> [ACheck i; ASend i]) ids) in
+                 let succ c = let k = key c in List.filter (fun c' -> key c' <> k) (List.map (fun a -> norm (astep c a)) acts) in
+                 let (finals, complete) = explore key succ (norm (ainit sf)) 2000000 in
+                 if not complete then failwith "comb-explore: state limit";
+                 List.map (fun (c : acfg) -> str (List.map (fun (_, v) -> string_of_int (int_of_nat v)) c.a_log)) finals
+               end in
+             let logs = List.sort_uniq compare logs in
+             Printf.printf "(logs %s)\n" (String.concat " " (List.map (fun l -> "(" ^ l ^ ")") logs))
+         | _ -> print_endline "(error \"bad comb\")"
+       end
+     done
+   with End_of_file -> ())
+
 let () =
   match Array.to_list Sys.argv with
   | _ :: "run-seq" :: fuel :: _ -> run_seq (int_of_string fuel)
@@ -582,5 +638,6 @@ let () =
   | _ :: "queue-accept" :: _ -> queue_accept_cmd ()
   | _ :: "tovec-explore" :: _ -> tovec_explore ()
   | _ :: "subj-explore" :: _ -> subj_explore ()
+  | _ :: "comb-explore" :: _ -> comb_explore ()
   | _ :: "subj-oracle" :: _ -> subj_oracle_cmd ()
   | _ -> prerr_endline "usage: driver run-seq FUEL < scenarios"; exit 2
